@@ -26,6 +26,7 @@ func init() {
 			{ID: "C07.4", Desc: "delete every variant, the index, and same-origin Location targets", Run: ruleC07_4, MinSites: 4},
 			{ID: "C07.5", Desc: "origin test: scheme, host, port", Run: ruleC07_5, MinSites: 1},
 			{ID: "C07.6", Desc: "one key function", Run: func(c *Ctx) { ruleOneKeyer(c, "C07.6") }, MinSites: 2},
+			{ID: "C07.7", Desc: "the location loop has no early exit", Run: func(c *Ctx) { ruleLocationLoopComplete(c, "C07.7") }, MinSites: 1},
 		},
 	})
 }
@@ -300,6 +301,40 @@ func ruleC07_4(c *Ctx) {
 		c.Pass("C07.4", "location-resolved", "the location value is resolved against the request URL", c.P.ShortName(inv))
 	} else {
 		c.Fail("C07.4", "location-resolved", "the location value is resolved against the request URL", "no ResolveReference call; a relative Location would never match")
+	}
+	// the index of a location target is read before its key is deleted (otherwise its variants are orphaned)
+	for _, fn := range tree {
+		var read ssa.Instruction
+		var key ssa.Value
+		instrsOf(fn, func(in ssa.Instruction) {
+			if c.An.CallsRole(in, "readIndex") {
+				read = in
+				_, a := recvAndArgs(callOf(in))
+				key = a[0]
+			}
+		})
+		if read == nil {
+			continue
+		}
+		bad := ""
+		instrsOf(fn, func(in ssa.Instruction) {
+			cc := callOf(in)
+			if cc == nil || in == read {
+				return
+			}
+			for _, a := range cc.Args {
+				if c.An.sameCanon(a, key) && isStringType(a.Type()) && !cc.IsInvoke() || (cc.IsInvoke() && cc.Method.Name() == "Delete" && c.An.sameCanon(a, key)) {
+					if instrReaches(in, read) && !instrReaches(read, in) {
+						bad = c.P.InstrPos(in) + ": the key is passed to `" + in.String() + "` before the index stored under it is read"
+					}
+				}
+			}
+		})
+		if bad != "" {
+			c.Fail("C07.4", "location-read-before-delete fn="+c.P.ShortName(fn), "the target's index is read before its key is deleted", bad+"; the read then fails and the variants it referenced stay in the store")
+		} else {
+			c.Pass("C07.4", "location-read-before-delete fn="+c.P.ShortName(fn), "the target's index is read before its key is deleted", c.P.ShortName(fn)+"@"+c.P.InstrPos(read))
+		}
 	}
 	// same-origin guard: under sameOrigin=F no location key computation and no index read is live
 	for _, fn := range tree {
